@@ -164,6 +164,7 @@ func (b *B) TypeDeclNode(t *Type, f *File) *Node {
 	fld("S", "[]int")
 	fld("M", "map[string]int")
 	fld("A", "[4]int")
+	fld("PA", "*[4]int") // indexable through Go's automatic dereference
 	fld("MS", "[]int")
 	fld("P, Q", "int") // two names in one field declaration: one doc comment covers both
 	fld("In", "Inner"+t.Name)
@@ -301,6 +302,7 @@ func immTemplates() []Tmpl {
 	ts = append(ts, simple("idx-slice", UFieldIndexAssign, "S", func(x string) string { return x + ".S[0] = 1" }, false, ""))
 	ts = append(ts, simple("idx-map", UFieldIndexAssign, "M", func(x string) string { return x + `.M["k"] = 1` }, false, ""))
 	ts = append(ts, simple("idx-array", UFieldIndexAssign, "A", func(x string) string { return x + ".A[1] = 2" }, false, ""))
+	ts = append(ts, simple("idx-ptr-array", UFieldIndexAssign, "PA", func(x string) string { return x + ".PA[1] = 2" }, false, "pointer-to-array-field"))
 	// @mutable candidates
 	ts = append(ts, simple("mut-assign", UFieldAssign, "G", func(x string) string { return x + ".G = 1" }, false, ""))
 	ts = append(ts, simple("mut-op", UFieldOpAssign, "G", func(x string) string { return x + ".G += 1" }, false, ""))
@@ -514,6 +516,14 @@ func useTemplates() []Tmpl {
 		c, u := callNew(t, env)
 		return []*Node{b.stmt(x+" := "+c, u), b.stmt(y+" := "+x+"."+env.Reset.Name, &Use{Kind: UMethodRef, Fn: env.Reset}), b.stmt(y + "()")}
 	}})
+	// method expressions: (*T).M(x) and T.M(*x) call the method just like x.M()
+	ts = append(ts, Tmpl{Name: "method-expression-call", Cat: TONL, Make: func(b *B, t *Type, env *Env) []*Node {
+		x := b.v()
+		c, u := callNew(t, env)
+		return []*Node{b.stmt(x+" := "+c, u),
+			b.tstmt("(*%T)."+env.Reset.Name+"("+x+")", free(refT(t, SubOther), TONL), &Use{Kind: UMethodRef, Fn: env.Reset, Call: true, Feature: "method-expression"}),
+			b.tstmt("%T."+env.Val.Name+"(*"+x+")", free(refT(t, SubOther), TONL), &Use{Kind: UMethodRef, Fn: env.Val, Call: true, Feature: "method-expression"})}
+	}})
 	// several annotated items nested in ONE expression (a suppressed outer use must not hide the inner ones)
 	ts = append(ts, Tmpl{Name: "nested-call-chain", Cat: TONL, Kind: "struct", NoImp: true, Make: func(b *B, t *Type, env *Env) []*Node {
 		c, u := callNew(t, env)
@@ -585,6 +595,28 @@ func useTemplates() []Tmpl {
 		}
 		fn.Post = []*Line{b.line("}")}
 		return []*Node{d1, d2, fn}
+	}})
+	// constants are not variable declarations: an iota group repeats the type implicitly (ValueSpec without type and values)
+	ts = append(ts, Tmpl{Name: "const-iota-group", Cat: CTOR, Kind: "int", Decl: true, Make: func(b *B, t *Type, env *Env) []*Node {
+		inert := func() *Use {
+			u := useT(UVarInert, t, "")
+			u.Feature = "const-iota-group"
+			return u
+		}
+		grp := func(a, c, d string) *Node {
+			return &Node{Pre: []*Line{b.line("const (")}, Kids: []*Node{
+				b.tstmt(a+" %T = iota", free(refT(t, SubOther), TONL), inert()),
+				b.stmt(c, inert()),
+				b.stmt(d, inert()),
+			}, Post: []*Line{b.line(")")}}
+		}
+		top := grp(b.d("kA"), b.d("kB"), b.d("kC"))
+		fn := &Node{Fn: &Func{Name: b.d("localConsts")}}
+		fn.Pre = []*Line{b.line("func " + fn.Fn.Name + "() {")}
+		x, y, z := b.v(), b.v(), b.v()
+		fn.Kids = []*Node{grp(x, y, z), b.stmt("_, _, _ = " + x + ", " + y + ", " + z)}
+		fn.Post = []*Line{b.line("}")}
+		return []*Node{top, fn}
 	}})
 	// type mentions in declarations
 	ts = append(ts, Tmpl{Name: "decl-param", Cat: TONL, Decl: true, Make: func(b *B, t *Type, env *Env) []*Node {
